@@ -229,6 +229,15 @@ CHECKS['C16']['text'] += (' Two-pattern templates: ReactorQueue2.tla shows with 
                           'when products are larger than their reactants and need not otherwise; recorded two-pattern runs (both reactant orders) are held against the declarative closure inside that domain.')
 CHECKS['C13']['text'] += ' A three-object instance model checks the Union action (coverage statistics showed it was never enabled with two objects).'
 CHECKS['C11']['text'] += ' Also hand-made single-centre drawings (explicit hydrogens at any position) judged against the other program\'s reading; reactions with atom-less components; more than eight labelled atoms; non-ASCII text in indexed files.'
+CHECKS['C05']['text'] += (' The hydrogen total of the Kekule form is held against an independent reader of the text; aromatic spellings of the library\'s own model '
+                          'must keep every bond the text calls aromatic; pi-complexes with substituted coordinated carbons.')
+CHECKS['C06']['text'] += ' A refusal of ring perception inside the claimed domain is a clause; dense eight-atom polycycles around a three-bridge core under many numberings.'
+CHECKS['C07']['text'] += ' A search that raises is a clause; multi-component patterns under every scope that excludes whole components; cycles closed by a coordinate bond; pairs that differ in configuration only.'
+CHECKS['C16']['text'] += ' The configuration a replacement requests is read against the replacement\'s own neighbour order (RequestedParity); a dead mark on an acyclic centre is claimed by the product-text clause.'
+CHECKS['C03']['text'] += ' Marked atoms that open several closures (nested / interleaved); a bond symbol at one closure digit with a direction mark at the other.'
+CHECKS['C10']['text'] += ' The earlier layout (header byte 0) is specified as Pack!EncodeV0 and fed to the decoder and to chython.unpack.'
+CHECKS['C18']['text'] += ' Every compiled valence rule\'s hydrogen count and charge is held against the pack format and the matcher layout; the charge range -4..4 through constructor and setter of element and query variants.'
+CHECKS['C19']['text'] += ' Every view is also evaluated alone on a fresh copy and after one other view; normalised objects are compared with their copy and with themselves after a flush.'
 PENDING = {}
 
 
